@@ -605,6 +605,104 @@ func runShared(c *mc.Ctx, r *mc.Result) {
 	}
 }
 
+// toDual builds one option VALUE usable both router-wide and per route.
+func toDual(o opt, seq int) fox.Option {
+	switch o.Kind {
+	case "redirect":
+		return fox.WithRedirectTrailingSlash(o.Arg == 1)
+	case "ignore":
+		return fox.WithIgnoreTrailingSlash(o.Arg == 1)
+	case "resolver":
+		if o.Arg == 0 {
+			return fox.WithClientIPResolver(nil)
+		}
+		return fox.WithClientIPResolver(res{"1.1.1.1"})
+	case "middleware":
+		return fox.WithMiddleware(recMw(fmt.Sprintf("d%d", seq)))
+	}
+	panic("bad dual option")
+}
+
+// runDual: one option value applied to a route first and to a new router afterwards (and the other way
+// round) behaves each time like a fresh value.
+func runDual(c *mc.Ctx, r *mc.Result) {
+	if c.Shard != 0 {
+		return
+	}
+	duals := []opt{{"redirect", 1}, {"redirect", 0}, {"ignore", 1}, {"ignore", 0}, {"resolver", 1}, {"resolver", 0}, {"middleware", 1}}
+	pres := append([]opt{{Kind: ""}}, globalOpts()...)
+	r.Bounds["dual"] = fmt.Sprintf("%d option values usable router-wide and per route x %d router-wide options placed before them x {route use then router use, router use then route use}: the second use is compared with the fold model of a fresh value", len(duals), len(pres))
+	slashRes := func(rt *fox.Route) string {
+		gotRes := ""
+		if rs := rt.ClientIPResolver(); rs != nil {
+			ip, _ := rs.ClientIP(nil)
+			gotRes = ip.String()
+		}
+		return fmt.Sprintf("redirect=%v ignore=%v resolver=%q", rt.RedirectTrailingSlashEnabled(), rt.IgnoreTrailingSlashEnabled(), gotRes)
+	}
+	wantOf := func(m *model) string {
+		return fmt.Sprintf("redirect=%v ignore=%v resolver=%q", m.redirect, m.ignore, m.resolver)
+	}
+	h := func(fox.Context) {}
+	for di, d := range duals {
+		for pi, pre := range pres {
+			for _, routeFirst := range []bool{true, false} {
+				v := toDual(d, 2)
+				gm := &model{}
+				var gopts []fox.GlobalOption
+				if pre.Kind != "" {
+					gm.apply(pre, 1, true)
+					gopts = append(gopts, toGlobal(pre, 1))
+				}
+				if gm.invalid {
+					continue
+				}
+				r.Evaluations++
+				r.DistinctNontrivial++
+				cs := map[string]any{"dual": di, "pre": pi, "route_first": routeFirst}
+				desc := fmt.Sprintf("option value %v, router-wide option before it %v, route use first: %v", d, pre, routeFirst)
+				if routeFirst {
+					f1, _ := fox.New()
+					if _, err := f1.NewRoute("/x", h, v); err != nil {
+						continue
+					}
+					f2, err := fox.New(append(gopts, v)...)
+					if err != nil {
+						continue
+					}
+					gm.apply(d, 2, true)
+					rt, err := f2.NewRoute("/y", h)
+					if err != nil {
+						r.Violate("dual", "valid-rejected", err.Error()+": "+desc, cs)
+						continue
+					}
+					if got, want := slashRes(rt), wantOf(gm); got != want {
+						r.Violate("dual", "option-value-stateful", fmt.Sprintf("a router built with an option value that was applied to a route before gives its routes %s, a fresh value gives %s: %s", got, want, desc), cs)
+					}
+				} else {
+					if _, err := fox.New(v); err != nil {
+						continue
+					}
+					f2, err := fox.New(gopts...)
+					if err != nil {
+						continue
+					}
+					rm := &model{redirect: gm.redirect, ignore: gm.ignore, resolver: gm.resolver}
+					rm.apply(d, 2, false)
+					rt, err := f2.NewRoute("/y", h, v)
+					if err != nil {
+						r.Violate("dual", "valid-rejected", err.Error()+": "+desc, cs)
+						continue
+					}
+					if got, want := slashRes(rt), wantOf(rm); got != want {
+						r.Violate("dual", "option-value-stateful", fmt.Sprintf("a route built with an option value that was applied to a router before has %s, a fresh value gives %s: %s", got, want, desc), cs)
+					}
+				}
+			}
+		}
+	}
+}
+
 func runOptions(c *mc.Ctx, r *mc.Result) {
 	maxRoute := 3
 	if c.Quick() {
@@ -701,6 +799,16 @@ func init() {
 				cc := *c
 				cc.Shard = 0
 				runShared(&cc, r)
+				if len(r.Violations) > 0 {
+					return r.Violations[0].Msg
+				}
+				return ""
+			}},
+			{Name: "dual", Run: runDual, Replay: func(c *mc.Ctx, raw json.RawMessage) string {
+				r := mc.NewResult()
+				cc := *c
+				cc.Shard = 0
+				runDual(&cc, r)
 				if len(r.Violations) > 0 {
 					return r.Violations[0].Msg
 				}
